@@ -102,6 +102,8 @@ def c04(tier):
     fam.append(recv_spec('offer-declined-text-bytewise', tags + ['C01', 'C05'], N=5, first_opcodes=[1], offer_declined=True, cuts='bytewise'))
     # the checked connection is preceded by an earlier one (unfinished fragments, frames cut anywhere, ...) on another or on the SAME object
     fam.append(recv_spec('after-earlier-connection-N3', tags + ['C01'], N=3, earlier=EARLIER))
+    # ... an earlier connection that NEGOTIATED permessage-deflate and received RSV1 frames; the checked one negotiates nothing
+    fam.append(recv_spec('after-earlier-compressed-connection-N3', tags + ['C01'], N=3, earlier=['Z', 'Z8900']))
     fam.append(recv_spec('closing-state-N4', tags + ['C01'], N=4 if tier == 'quick' else 5, app_close_at_ready=True))
     fam.append(recv_spec('closing-state-close-codes', tags + ['C01'], N=5 if tier == 'quick' else 6, first_opcodes=[8], no_rsv=True,
                          app_close_at_ready=True))
